@@ -22,7 +22,7 @@ func RunRootsDirect(c *sim.Ctx) {
 	choices := []int{0, 1, 2, 3, 5, 100}
 	cc := cacheCfg{rootsNum: uint(choices[knob("roots_num", 0, 5)]), rootsFrames: choices[knob("roots_frames", 0, 5)], fcPairs: 16, hbSize: 64, laSize: 64}
 	nOps := knob("ops", 2, 40)
-	c.ProbeDecl("multi_frame_root", "query_of_cached_frame_after_registration", "epoch_switch_with_roots", "fork_roots_in_one_slot")
+	c.ProbeDecl("multi_frame_root", "query_of_cached_frame_after_registration", "epoch_switch_with_roots", "fork_roots_in_one_slot", "reset_to_the_same_epoch")
 
 	dbs := newDBs()
 	var critErr error
@@ -66,6 +66,9 @@ func RunRootsDirect(c *sim.Ctx) {
 		case 1:
 			return sim.Op{K: "query", A: []int64{int64(c.Int("frame", 1, 8))}}, true
 		default:
+			if c.Chance("reset_to_the_same_epoch", 400) {
+				return sim.Op{K: "reset", A: []int64{1}}, true
+			}
 			return sim.Op{K: "reset"}, true
 		}
 	}
@@ -135,7 +138,12 @@ func RunRootsDirect(c *sim.Ctx) {
 			if len(model) > 0 {
 				c.Probe("epoch_switch_with_roots")
 			}
-			epoch++
+			if len(op.A) > 0 && op.A[0] == 1 {
+				// the epoch starts over under its own number (its database exists under that number and is re-created)
+				c.Probe("reset_to_the_same_epoch")
+			} else {
+				epoch++
+			}
 			guard("Reset", func() {
 				if err := ord.Reset(idx.Epoch(epoch), vals); err != nil {
 					c.Violation("reset-error", "reset-error", "Reset: %v", err)
